@@ -1,4 +1,5 @@
 import AgdbDb.Lemmas.Abs
+import AgdbDb.Lemmas.GReach
 namespace AgdbDb
 open Db
 
@@ -156,5 +157,44 @@ theorem undoCmd_refines (c : Cmd) (u : Db) (hi : u.SInv) (hp : pre c u.abs) :
         exact ix_view_update u.indexes k k' (fun l => ixIns v id (ixDel cur id l)) (fun m => bump v id (unbump cur id m))
           (fun l => by rw [countFn_ixIns, countFn_ixDel])
     · exact keys_view_set _ _ _ hi.kvNodup (by rw [keysOf_kvReplace]; exact hi.kvNodup _)
+
+/-- every arm of `rollback` changes the graph by at most one admissible graph mutation -/
+theorem undoCmd_greach (c : Cmd) (u u' : Db) (hi : u.SInv) (hp : pre c u.abs) (h : Db.undoCmd c u = some u') :
+    GReach u.graph u'.graph := by
+  cases c with
+  | insertEdge f t =>
+    simp only [Db.undoCmd] at h
+    cases hr : u.graph.insertEdge f.natAbs t.natAbs with
+    | error e => rw [hr] at h; cases h
+    | ok r =>
+      rw [hr] at h; cases h
+      have := GReach.step u.graph (.insertEdge f.natAbs t.natAbs) trivial
+      simp only [GOp.runG, hr] at this; exact this
+  | insertNode =>
+    simp only [Db.undoCmd] at h; cases h
+    exact GReach.step u.graph .insertNode trivial
+  | removeEdge e =>
+    simp only [Db.undoCmd] at h; cases h
+    exact GReach.step u.graph (.removeEdge e.natAbs) trivial
+  | removeNode n =>
+    simp only [Db.undoCmd] at h; cases h
+    obtain ⟨_, hne⟩ := hp
+    exact GReach.step u.graph (.removeNode n.natAbs) (fun _ => chains_empty_of_no_edges hi.wf n.natAbs hne)
+  | insertAlias a id => simp only [Db.undoCmd] at h; cases h; exact GReach.refl _
+  | removeAlias a => simp only [Db.undoCmd] at h; cases h; exact GReach.refl _
+  | insertIndex k => simp only [Db.undoCmd] at h; cases h; exact GReach.refl _
+  | removeIndex k => simp only [Db.undoCmd] at h; cases h; exact GReach.refl _
+  | insertKeyValue id kv => simp only [Db.undoCmd] at h; cases h; exact GReach.refl _
+  | removeKeyValue id kv => simp only [Db.undoCmd] at h; cases h; exact GReach.refl _
+  | insertToIndex k v id =>
+    simp only [Db.undoCmd] at h
+    cases hf : ixFind u.indexes k with
+    | none => rw [hf] at h; cases h
+    | some l => rw [hf] at h; cases h; exact GReach.refl _
+  | replaceKeyValue id kv =>
+    simp only [Db.undoCmd] at h
+    cases hf : kvFind (kvGet u.values id.natAbs) kv.1 with
+    | none => rw [hf] at h; cases h
+    | some cur => rw [hf] at h; cases h; exact GReach.refl _
 
 end AgdbDb
